@@ -1,4 +1,4 @@
-import Ecal.Lemmas.PoolEnabled
+import Ecal.Lemmas.PoolFair
 import Ecal.Gen.C09
 /-!
 # C09 — the thread pool runs every accepted task exactly once without outside help
@@ -57,10 +57,9 @@ theorem no_double_start {v : Variant} {s : State} (h : Reachable v s) (hn : s.ad
     for one of them). In particular "a task queued, one worker running, another parked in Wait,
     nothing in flight" is unreachable: a queued task never waits for another task while a worker
     sleeps. No further API call and no polling broadcast is needed. -/
-theorem no_stuck_task {s : State} (h : Reachable repaired s) (hq : s.queue ≠ []) (hw : 0 < s.live) :
+theorem no_stuck_task {s : State} (h : Reachable repaired s) (hq : s.queue ≠ []) :
     (∃ e ∈ internalEvents s, isFinish e = false ∧ (step repaired s e).isSome) ∨
       s.live = cntOf s.pcs .run := by
-  have _ := hw
   rcases enabled_or_parked h with he | ⟨hp, hin⟩
   · exact Or.inl he
   · right
@@ -71,7 +70,7 @@ theorem no_stuck_task {s : State} (h : Reachable repaired s) (hq : s.queue ≠ [
       | nil => exact absurd hs hq
       | cons a l => simp [abs, hs]
     have hQ := hinv.q
-    simp only [State.live, clive] at hw ⊢
+    simp only [State.live, clive]
     simp only [asleep, awake, abs, CState.inflight] at hQ hin hq'
     by_cases hwait : 0 < cntOf s.pcs .waiting
     · have := hQ (by omega)
@@ -133,27 +132,189 @@ theorem internal_of_mem {s : State} {e : Event} (h : e ∈ internalEvents s) : i
   · simp at h
     rcases h with h | h | h | h <;> subst h <;> rfl
 
+/-- **Under fairness a queued task is started** (the combined corollary of `no_stuck_task` and
+    `pop_within_bound`; queue level: SOME queued task — which one is the queue's business, see
+    `fifo_started_in_order` for `DefaultTaskQueue`). In every infinite execution of the repaired pool
+    (`Exec`: any interleaving, attempts that are not enabled stutter) that is fair (`Exec.Fair`: whenever a
+    pool-internal event is enabled, a pool-internal event is eventually taken — the assumption about the Go
+    scheduler and about terminating tasks) and in which no new call is made from tick `N` on
+    (`Exec.CallsStopAt`: only pool-internal events and polling broadcasts), if a task is queued at tick `N`
+    then at some later tick a worker pops a task — or the pool has lost all its workers (every one of them
+    was told to exit: outside the property's "while the pool has at least one worker"). No further call,
+    no polling broadcast is needed: the hypothesis allows them but does not use them. -/
+theorem fair_queued_task_started (X : Exec) (hf : X.Fair) {N : Nat} (hc : X.CallsStopAt N)
+    (hq : (X.C N).queue ≠ []) : ∃ m, N ≤ m ∧ (X.took isPop m ∨ (X.C m).live = 0) := by
+  suffices ∀ k n, N ≤ n → cmu (abs (X.C n)) ≤ k → (X.C n).queue ≠ [] →
+      ∃ m, n ≤ m ∧ (X.took isPop m ∨ (X.C m).live = 0) by
+    obtain ⟨m, hm, h⟩ := this _ N (Nat.le_refl N) (Nat.le_refl _) hq
+    exact ⟨m, hm, h⟩
+  intro k
+  induction k with
+  | zero =>
+    intro n hn hk hqn
+    by_cases hl : (X.C n).live = 0
+    · exact ⟨n, Nat.le_refl n, Or.inr hl⟩
+    · have hen : enabledInternal (X.C n) := by
+        rcases no_stuck_task (exec_reachable X n) hqn with ⟨e, he, _, h⟩ | hsat
+        · exact ⟨e, he, h⟩
+        · exact run_enabled (by omega)
+      obtain ⟨m, hnm, htook⟩ := hf n hen
+      have hmd : n + (m - n) = m := by omega
+      rcases ticks_measure X hc (m - n) hn hqn with ⟨j, h1, _, h3⟩ | ⟨hmeas, hqm⟩
+      · exact ⟨j, h1, Or.inl h3⟩
+      · rw [hmd] at hmeas hqm
+        by_cases hp : X.took isPop m
+        · exact ⟨m, hnm, Or.inl hp⟩
+        · have := (tick_measure X hc (by omega : N ≤ m) hqm hp).2.2 htook
+          omega
+  | succ k ih =>
+    intro n hn hk hqn
+    by_cases hl : (X.C n).live = 0
+    · exact ⟨n, Nat.le_refl n, Or.inr hl⟩
+    · have hen : enabledInternal (X.C n) := by
+        rcases no_stuck_task (exec_reachable X n) hqn with ⟨e, he, _, h⟩ | hsat
+        · exact ⟨e, he, h⟩
+        · exact run_enabled (by omega)
+      obtain ⟨m, hnm, htook⟩ := hf n hen
+      have hmd : n + (m - n) = m := by omega
+      rcases ticks_measure X hc (m - n) hn hqn with ⟨j, h1, _, h3⟩ | ⟨hmeas, hqm⟩
+      · exact ⟨j, h1, Or.inl h3⟩
+      · rw [hmd] at hmeas hqm
+        by_cases hp : X.took isPop m
+        · exact ⟨m, hnm, Or.inl hp⟩
+        · have ht := tick_measure X hc (by omega : N ≤ m) hqm hp
+          have hstrict := ht.2.2 htook
+          have hq1 : (X.C (m + 1)).queue ≠ [] := by
+            intro hnil
+            have hl' := ht.2.1
+            rw [hnil] at hl'
+            exact hqm (List.eq_nil_of_length_eq_zero hl'.symm)
+          obtain ⟨m', hm', h⟩ := ih (m + 1) (by omega) (by omega) hq1
+          exact ⟨m', by omega, h⟩
+
+/-- events and start state of the non-vacuity example below -/
+def exEvents : List Event := [.killPass 0, .pop 0 7, .finish 0, .killPass 0, .popNone 0, .regIdle 0, .wLock 0, .readQ 0,
+  .readKill 0, .wWait 0]
+
+def exStart : State := ⟨[.head], [7], [7], [], 0, 0, 0, 0, 0⟩
+
+def exExec : Exec := Exec.ofList exStart ⟨[.swcSet 1, .aPush 7, .aLock, .aSignal none], rfl⟩ exEvents
+
+/-- not vacuous: one worker, task 7 queued, its AddTask finished; the execution attempts the worker's ten
+    steps (kill check, pop, return, …, Wait) and then rests in a state without enabled internal event: it is
+    fair, makes no call, and the pop is taken at tick 1 -/
+example : ∃ (X : Exec) (N : Nat), X.Fair ∧ X.CallsStopAt N ∧ (X.C N).queue ≠ [] ∧ X.took isPop 1 := by
+  refine ⟨exExec, 0, ?_, ?_, by decide, ⟨.pop 0 7, rfl, rfl, by decide⟩⟩
+  · intro n hen
+    rcases Nat.lt_or_ge n 10 with hlt | hge
+    · -- before the list is exhausted: the event of this tick is internal and succeeds
+      refine ⟨n, Nat.le_refl n, ?_⟩
+      have : n = 0 ∨ n = 1 ∨ n = 2 ∨ n = 3 ∨ n = 4 ∨ n = 5 ∨ n = 6 ∨ n = 7 ∨ n = 8 ∨ n = 9 := by omega
+      rcases this with h | h | h | h | h | h | h | h | h | h <;> subst h <;>
+        exact ⟨_, rfl, rfl, by decide⟩
+    · -- afterwards the execution rests where nothing internal is enabled
+      exfalso
+      have hrest : exExec.C n = execC exStart exEvents 10 := execC_rest exStart exEvents n hge
+      rw [hrest] at hen
+      revert hen
+      unfold enabledInternal
+      decide
+  · intro n _ e he
+    rcases Nat.lt_or_ge n 10 with hlt | hge
+    · have : n = 0 ∨ n = 1 ∨ n = 2 ∨ n = 3 ∨ n = 4 ∨ n = 5 ∨ n = 6 ∨ n = 7 ∨ n = 8 ∨ n = 9 := by omega
+      rcases this with h | h | h | h | h | h | h | h | h | h <;> subst h <;>
+        (simp [exExec, Exec.ofList, exEvents] at he; subst he; left; rfl)
+    · have : exEvents[n]? = none := List.getElem?_eq_none hge
+      simp [exExec, Exec.ofList, this] at he
+
+/-- **FIFO: tasks are started in the order in which they were queued** (`DefaultTaskQueue`). In a run in
+    which every pop takes the task at the head of the queue (`fifoFrom`; this is what the trace validator
+    checks on every recorded pop of the real `DefaultTaskQueue`), the tasks started during the run, in order,
+    followed by what is still queued, are exactly the tasks queued at the start followed by the tasks pushed
+    during the run, in order. In particular the task at position `k` of the queue is the one taken by the
+    `(k+1)`-th pop: with `fair_queued_task_started` (each next pop happens under fairness) EVERY queued task
+    is started, not just some. (engine.TaskQueue is not FIFO: no such statement for it.) -/
+theorem fifo_started_in_order {s s' : State} {es : List Event} (h : runFrom repaired s es = some s')
+    (hf : fifoFrom s es) :
+    s.queue ++ pushedOf es = poppedOf es ++ s'.queue ∧
+    ∀ k t, s.queue[k]? = some t → k < (poppedOf es).length → (poppedOf es)[k]? = some t := by
+  have heq := fifo_queue_eq h hf
+  refine ⟨heq, ?_⟩
+  intro k t hk hlen
+  have h1 : (s.queue ++ pushedOf es)[k]? = some t := by
+    have hlt : k < s.queue.length := by
+      rcases Nat.lt_or_ge k s.queue.length with h' | h'
+      · exact h'
+      · simp [List.getElem?_eq_none h'] at hk
+    rw [List.getElem?_append_left hlt]; exact hk
+  rw [heq, List.getElem?_append_left hlen] at h1
+  exact h1
+
+/-- not vacuous: two queued tasks, a third pushed while the first runs; the pops take 1, 2, 3 in this order -/
+example : ∃ s s', Reachable repaired s ∧ s.queue = [1, 2] ∧
+    runFrom repaired s [.killPass 0, .pop 0 1, .aPush 3, .finish 0, .killPass 0, .pop 0 2, .finish 0, .killPass 0,
+      .pop 0 3] = some s' ∧
+    fifoFrom s [.killPass 0, .pop 0 1, .aPush 3, .finish 0, .killPass 0, .pop 0 2, .finish 0, .killPass 0, .pop 0 3] ∧
+    poppedOf [.killPass 0, .pop 0 1, .aPush 3, .finish 0, .killPass 0, .pop 0 2, .finish 0, .killPass 0, .pop 0 3]
+      = [1, 2, 3] := by
+  refine ⟨_, _, ⟨[.swcSet 1, .aPush 1, .aPush 2], rfl⟩, by decide, rfl, ?_, by decide⟩
+  simp [fifoFrom, step, repaired, State.goto, init, State.live, clive, cntOf, PC.cls]
+
 /-- **Resizing converges.** No reachable state has a pending kill request (`workerKill > 0`) while
     every remaining worker is parked: as long as `workerKill > 0` and a worker has not been told to
     exit, a pool-internal step other than the return of a task is enabled, or every such worker is
     busy running a task (it takes the kill request when the task returns). Each `killExit` step
     decrements `workerKill` and removes one worker; `resize_target` gives the exact count. -/
-theorem resize_converges {s : State} (h : Reachable repaired s) (hk : 0 < s.kill) (hw : 0 < s.live) :
+theorem resize_converges {s : State} (h : Reachable repaired s) (hk : 0 < s.kill) :
     (∃ e ∈ internalEvents s, isFinish e = false ∧ (step repaired s e).isSome) ∨
       s.live = cntOf s.pcs .run := by
-  have _ := hw
   rcases enabled_or_parked h with he | ⟨hp, hin⟩
   · exact Or.inl he
   · right
     have hinv := inv_reachable h
     have hlen := length_eq_sum s.pcs
     have hK := hinv.k (by simpa [abs] using hk)
-    simp only [State.live, clive] at hw ⊢
+    simp only [State.live, clive]
     simp only [asleep, abs, CState.inflight] at hK hin
     by_cases hwait : 0 < cntOf s.pcs .waiting
     · have := hK (by omega)
       omega
     · omega
+
+/-- **A requested shrink is carried out after boundedly many pool-internal steps.** While
+    `workerKill > 0`, along any sequence of pool-internal events in which no worker takes a kill request
+    (`killExit`), the measure `cmuK` — per worker its remaining steps to the loop head, where it must take a
+    request because `killPass` is disabled, plus the steps left of calls in flight — drops by at least one
+    per event and `workerKill` stays as it is: such a sequence from `s` is at most `cmuK (abs s)` long.
+    With `resize_converges` (it can always be continued unless every live worker is busy) and
+    `resize_target` (exact arithmetic): under fairness the requested number of workers exits. -/
+theorem kill_within_bound {s s' : State} {es : List Event} (hk : 0 < s.kill)
+    (hes : ∀ e ∈ es, isInternal e = true ∧ isKillExit e = false)
+    (h : runFrom repaired s es = some s') :
+    es.length + cmuK (abs s') ≤ cmuK (abs s) ∧ s'.kill = s.kill := by
+  induction es generalizing s with
+  | nil => simp [runFrom, List.foldlM] at h; subst h; simp
+  | cons e es ih =>
+    simp only [runFrom, List.foldlM_cons] at h
+    cases hs : step repaired s e with
+    | none => simp [hs] at h
+    | some s1 =>
+      simp [hs] at h
+      have he := hes e (by simp)
+      have hstep := cmuK_step (sim_step hs) (by rw [internal_abs]; exact he.1)
+        (by rw [isKillExit_abs]; exact he.2) (by simpa [abs] using hk)
+      have hk1 : s1.kill = s.kill := by simpa [abs] using hstep.2
+      have := ih (by omega) (fun e' he' => hes e' (by simp [he'])) h
+      simp only [List.length_cons]
+      omega
+
+/-- not vacuous: two workers, one of them asked to leave, both still parked — four internal steps without a
+    `killExit` (the locked broadcast, then the woken worker's way to the loop head) -/
+example : ∃ s s', Reachable repaired s ∧ 0 < s.kill ∧
+    runFrom repaired s [.swcLock, .swcBcast, .wRelock 0, .wUnlock 0, .unregIdle 0] = some s' ∧ s'.kill = 1 :=
+  ⟨_, _, ⟨[.swcSet 2, .killPass 0, .popNone 0, .regIdle 0, .wLock 0, .readQ 0, .readKill 0, .wWait 0,
+            .killPass 1, .popNone 1, .regIdle 1, .wLock 1, .readQ 1, .readKill 1, .wWait 1, .swcSet 1], rfl⟩,
+    by decide, rfl, by decide⟩
 
 example : ∃ s, Reachable repaired s ∧ 0 < s.kill ∧ 0 < s.live :=
   ⟨_, ⟨[.swcUp 2, .swcDown 0], rfl⟩, by decide, by decide⟩
@@ -368,7 +529,8 @@ theorem lost_wakeup_reachable :
       ∀ e ∈ internalEvents s, step pristine s e = none := by
   refine ⟨⟨[.waiting], [7], [7], [], 0, 0, 0, 0, 0⟩, by decide, rfl, rfl, by decide, by decide⟩
 
-/-- the repaired protocol does not admit that schedule: AddTask cannot signal without `L` -/
-theorem losing_schedule_blocked : runFrom repaired init losing = none := by decide
+/-- (example, not a theorem about all schedules) the repaired protocol refuses THIS event list: AddTask
+    cannot signal without `L` -/
+example : runFrom repaired init losing = none := by decide
 
 end Ecal.Props.C09
